@@ -46,6 +46,8 @@ func parseDirective(doc string, o *HarnessOpts) {
 			switch p[0] {
 			case "prop":
 				o.Prop = p[1]
+			case "also": // further properties under which this harness is run as well (comma list)
+				o.Also = strings.Split(p[1], ",")
 			case "tier":
 				o.Tier = p[1]
 			case "backend":
@@ -294,7 +296,14 @@ func cmdCheck() int {
 	var hs []harnessDecl
 	for _, h := range all {
 		if *flagProp != "" && h.Opts.Prop != *flagProp {
-			continue
+			also := false
+			for _, a := range h.Opts.Also {
+				also = also || a == *flagProp
+			}
+			if !also {
+				continue
+			}
+			h.Opts.Prop = *flagProp
 		}
 		if *flagTier == "quick" && h.Opts.Tier != "quick" {
 			continue
@@ -720,11 +729,20 @@ func runNative(file, relDir, harness, pkgName string, ovDecls []harnessDecl, tag
 	repl := map[string]string{}
 	n := 0
 	var names []string
+	libDone := map[string]bool{relDir: true}
 	for _, d := range ovDecls {
+		repl[filepath.Join(*flagRepo, d.RelDir, "zz_h_"+filepath.Base(d.File))] = d.File
 		if d.RelDir != relDir {
+			// stub-set files of other packages may export helpers the harness refers to: compile them
+			// natively too (their replaced functions are simply unused there)
+			if !libDone[d.RelDir] && d.PkgName != "" {
+				libDone[d.RelDir] = true
+				l2 := filepath.Join(tmp, fmt.Sprintf("zz_lib_verif_%d.go", len(libDone)))
+				os.WriteFile(l2, libSource(d.PkgName), 0o644)
+				repl[filepath.Join(*flagRepo, d.RelDir, "zz_lib_verif.go")] = l2
+			}
 			continue
 		}
-		repl[filepath.Join(*flagRepo, d.RelDir, "zz_h_"+filepath.Base(d.File))] = d.File
 		if d.Name != "" {
 			names = append(names, d.Name)
 		}
